@@ -1,6 +1,6 @@
 (* CorrC03.v — how the C03 correspondence cases are run on the model *)
 From WW Require Import Prim Corr Params Amp CPSwap Stable2.
-From WW Require Export Stable2Pool.
+From WW Require Export CPSwap Stable2Pool.
 
 (* compute_swap with PairType::StableSwap. input: ((offer_pool, ask_pool, offer), (protocol, swap, burn), (amp, offer_decimals, ask_decimals)) *)
 Definition run_c03_swap (i : (Z * Z * Z) * (Z * Z * Z) * (Z * Z * Z)) : list Z :=
